@@ -140,7 +140,12 @@ def shrink(mod: Any, cfg: dict, choices: List[int], want: Tuple[str, str], kfs: 
 
 
 def main() -> None:
-    job = json.loads(sys.argv[1])
+    arg = sys.argv[1]
+    if arg.startswith('@'):
+        with open(arg[1:]) as f:
+            job = json.load(f)
+    else:
+        job = json.loads(arg)
     os.makedirs(job['scratch'], exist_ok=True)
     os.environ['HOME'] = job['scratch']
     os.environ['VERIF_SCRATCH'] = job['scratch']
